@@ -1,6 +1,6 @@
 SPECIFICATION Spec
 CONSTANTS
-  Kinds = {"date", "tod", "dt"}
+  Kinds = {"date", "tod", "dt", "ill"}
   Emit = TRUE
 INVARIANTS ValueTwoWays LeapSanity EmitReplay
 CHECK_DEADLOCK FALSE
